@@ -26,3 +26,7 @@ chk("C10", "E3-bfs", "model_checking",
     "Each transition is one run of the real `dirk --import-slashing-protection` binary built from the tree; prior per-key histories are made by real signing; all (prior state x file) cells and sequences of two imports over an alphabet of files (one-field-newer, duplicate keys, wrong metadata, malformed numbers/keys) are enumerated; after each cell the reopened store is probed for refusal at and below every own/file maximum and decoded records are compared.",
     "Trusted: values outside the alphabet behave like neighbours; only two keys; probes are a finite set around the maxima.",
     "exhaustive (state x input) enumeration through the real CLI binary with probe oracle", "5/C10")
+chk("C06", "E2-dfs", "fault_enumeration",
+    "For every request shape (kind x addressing x lock state x planted record x malformed length x closed store) every execution with at most d departures from the default environment answer is run through the real gRPC signer handlers on the real stack; every call of fetcher, checker, unlocker, rules.On*, the store operations (error; store closed between read and write) and Account.Sign/IsUnlocked is a choice point. Oracle: signature present iff SUCCEEDED at the wire and at the service, position by position, and no signature at a position served by a failed or indeterminate step.",
+    "Trusted: fault menu excludes results no in-tree rules implementation can produce; GOMAXPROCS=1 in explorer processes; a request that never answers (badger blocks on a closed database) counts as 'no signature'.",
+    "deviation-bounded exhaustive fault injection at every dependency call site of the implementation", "5/C06")
